@@ -161,6 +161,7 @@ func (s reasmStream) ReassemblyComplete(ac reassembly.AssemblerContext) bool {
 
 type factory struct{ rec *recorder }
 
+
 func (f *factory) mk(netFlow gopacket.Flow) *stream {
 	src := netFlow.Src().Raw()
 	pair, dir := int(src[2]), int(src[3])-1
@@ -175,13 +176,13 @@ func (f *factory) mk(netFlow gopacket.Flow) *stream {
 	return s
 }
 
-type asmFactory struct{ factory }
+type asmFactory struct{ *factory }
 
 func (f *asmFactory) New(netFlow, tcpFlow gopacket.Flow) tcpassembly.Stream {
 	return asmStream{f.mk(netFlow)}
 }
 
-type reasmFactory struct{ factory }
+type reasmFactory struct{ *factory }
 
 func (f *reasmFactory) New(netFlow, tcpFlow gopacket.Flow, tcp *layers.TCP, ac reassembly.AssemblerContext) reassembly.Stream {
 	return reasmStream{f.mk(netFlow)}
@@ -242,17 +243,51 @@ func (x reasmA) assemble(it item) {
 }
 func (x reasmA) flushAll() int { return x.a.FlushAll() }
 
+// env is one StreamPool with its Assemblers.  Creating them is expensive (every classic Assembler
+// allocates a 2 MB page cache), so an env is reused by the next case of the same package when the
+// previous case ended *clean*: all goroutines finished without panic and the closing FlushAll left
+// the pool empty.  Then every connection object is either unused or closed and in the free list,
+// and a recycled object is fully re-initialised by connection.reset before use, so the next case
+// cannot tell the difference from a fresh pool (a replay of a single case always starts fresh).
+type env struct {
+	pkg  string
+	fac  *factory
+	asms []assembler
+	mk   func() assembler
+}
+
+var cached *env
+
+func newEnv(pkg string) *env {
+	e := &env{pkg: pkg, fac: &factory{}}
+	if pkg == "asm" {
+		pool := tcpassembly.NewStreamPool(&asmFactory{e.fac})
+		e.mk = func() assembler { return asmA{tcpassembly.NewAssembler(pool)} }
+	} else {
+		pool := reassembly.NewStreamPool(&reasmFactory{e.fac})
+		e.mk = func() assembler { return reasmA{reassembly.NewAssembler(pool)} }
+	}
+	return e
+}
+
+func (e *env) assembler(i int) assembler {
+	for len(e.asms) <= i {
+		e.asms = append(e.asms, e.mk())
+	}
+	return e.asms[i]
+}
+
 func runSchedule(sched []int) string {
 	rec := &recorder{}
-	var mk func() assembler
-	if curPkg == "asm" {
-		pool := tcpassembly.NewStreamPool(&asmFactory{factory{rec}})
-		mk = func() assembler { return asmA{tcpassembly.NewAssembler(pool)} }
-	} else {
-		pool := reassembly.NewStreamPool(&reasmFactory{factory{rec}})
-		mk = func() assembler { return reasmA{reassembly.NewAssembler(pool)} }
+	ev := cached
+	cached = nil
+	if ev == nil || ev.pkg != pkgTag() {
+		ev = newEnv(pkgTag())
+		lib.Stat("env:fresh")
 	}
-	closer := mk() // used after the run for the closing FlushAll
+	ev.fac.rec = rec
+	mk := func(i int) assembler { return ev.assembler(i) }
+	closer := mk(0) // after the run (all goroutines ended): the closing FlushAll
 	c := &controller{reports: make(chan report), dead: map[interface{}]bool{}, rec: rec}
 	for t := 0; t < nThreads; t++ {
 		w := &worker{id: t, resume: make(chan bool)}
@@ -264,7 +299,7 @@ func runSchedule(sched []int) string {
 	// touched before it
 	for t, w := range c.ws {
 		prog := progs[t]
-		a := mk()
+		a := mk(t)
 		c.spawn(w, func(w *worker) {
 			for i, it := range prog {
 				w.opIdx, w.inFlush, w.curKey = i, it.flush, [2]int{it.pair, it.dir}
@@ -341,6 +376,8 @@ func runSchedule(sched []int) string {
 			} else {
 				if r[1] != 0 {
 					lib.Finding("C12", "pool:"+pkgTag()+":not-removed", fmt.Sprintf("%d connection(s) still in the pool after FlushAll", r[1]))
+				} else {
+					cached = ev
 				}
 				for _, s := range rec.all {
 					if s.completes > 1 {
